@@ -36,7 +36,8 @@ TIMEOUT_CASE = 60.0
 
 
 def tmpdir_for(case):
-    h = hashlib.sha256((case["id"] + json.dumps(case["recipe"], sort_keys=True)).encode()).hexdigest()[:16]
+    # per work copy and checked tree: two checks running at the same time (another clone, a scratch worktree) generate the same cases
+    h = hashlib.sha256((str(core.ROOT) + "|" + str(core.REPO) + "|" + case["id"] + json.dumps(case["recipe"], sort_keys=True)).encode()).hexdigest()[:16]
     return f"/tmp/hvc07-{h}"
 
 
